@@ -6,6 +6,7 @@ import math
 from fractions import Fraction
 
 from ..core import frac
+from . import _c14ext5
 
 LEVEL = "proof"
 RULE = ("segment tables of 1..6 chromosomes (either naming style, any order) x 1..30 segments (runs of equal level of random "
@@ -127,6 +128,13 @@ def corpus():
     ]
 
 
+_corpus_r4 = corpus
+
+
+def corpus():
+    return _corpus_r4() + _c14ext5.corpus()
+
+
 def gen_cases(rng, tier):
     n = {"quick": 300, "thorough": 3000, "search": 600}[tier]
     cases = []
@@ -162,6 +170,8 @@ def gen_cases(rng, tier):
     import random
     cases += _rep_cases(random.Random(rng.randrange(10 ** 9)), tier)
     cases += _chain_cases(random.Random(rng.randrange(10 ** 9)), tier)
+    # round 5: every column of the merged row (own random stream)
+    cases += _c14ext5.gen(random.Random(rng.randrange(10 ** 9)), tier)
     return cases
 
 
@@ -528,6 +538,8 @@ def _rows_out(arr):
 
 
 def run_impl(case):
+    if case["op"] in _c14ext5.OPS:
+        return _c14ext5.run(case)
     from cnvlib import segfilters, call
     i = case["in"]
     if case["op"] == "filter_chain":
@@ -719,6 +731,8 @@ def _close(a, b):
 
 
 def judge(case, impl, resp):
+    if case["op"] in _c14ext5.OPS:
+        return _c14ext5.judge(case, impl, resp)
     if isinstance(impl, dict) and "__error__" in impl:
         return ["raises_" + impl["__error__"]], [], None
     if "error" in resp:
@@ -752,6 +766,8 @@ def judge(case, impl, resp):
 
 
 def nontrivial(case, impl, resp):
+    if case["op"] in _c14ext5.OPS:
+        return _c14ext5.nontrivial(case, impl, resp)
     if case["op"] in ("filter_chain", "do_call_pipe"):
         return isinstance(impl, dict) and ("raises" in impl or len(impl.get("rows", [])) < len(case["in"]["rows"]))
     if isinstance(impl, dict) and "cli_rows" in impl:
